@@ -8,11 +8,18 @@ import SRVerif.Driver.C18
 import SRVerif.Driver.Solve
 import SRVerif.Driver.C17
 import SRVerif.Driver.C19
+import SRVerif.Driver.C06
+import SRVerif.Driver.C20
+import SRVerif.Driver.C08
+import SRVerif.Driver.C13
+import SRVerif.Driver.C15
+import SRVerif.Driver.C11
+import SRVerif.Driver.C12
 
 open Lean SR.Drv
 
 def allHandlers : List (String × Handler) :=
-  C16.handlers ++ C18.handlers ++ Solve.handlers ++ C17.handlers ++ C19.handlers
+  C16.handlers ++ C18.handlers ++ Solve.handlers ++ C17.handlers ++ C19.handlers ++ C06.handlers ++ C20.handlers ++ C08.handlers ++ C13.handlers ++ C15.handlers ++ C11.handlers ++ C12.handlers
 
 def handleLine (line : String) : String :=
   match Json.parse line with
